@@ -34,8 +34,8 @@ def PhaseW (w : Worker) (m : Blob) (d : Option Blob) (B : Bytes) (dirty : List N
   | .fOpen => d = none ∧ Cover dirty [] m.mds
   | .fCreate => d = none ∧ Cover dirty [] m.mds ∧ w.minc = m.inc
   | .fCreated => DiskPartial d [] w.dinc ∧ Cover dirty [] m.mds ∧ w.minc = m.inc
-  | .fCopy => DiskPartial d [] w.dinc ∧ Cover dirty [] m.mds ∧ w.minc = m.inc
-  | .fCopyEof => DiskPartial d B w.dinc ∧ Cover dirty [] m.mds ∧ w.minc = m.inc
+  | .fCopy => DiskPartial d (B.take w.copied) w.dinc ∧ Cover dirty [] m.mds ∧ w.minc = m.inc
+  | .fCopyEof => DiskPartial d (B.take w.copied) w.dinc ∧ Cover dirty [] m.mds ∧ w.minc = m.inc
   | .fCopied ev => ev = false ∧ DiskPartial d B w.dinc ∧ Cover dirty [] m.mds
   | .mdSnap => DiskDone d B ∧ ∀ b, d = some b → Cover dirty b.mds m.mds
   | .mdRead todo => DiskDone d B ∧ ∀ b, d = some b → Cover (dirty ++ todo) b.mds m.mds
